@@ -916,6 +916,38 @@ def fam_args_mix(tier, rng):
 FAMILIES.append(fam_args_mix)
 
 
+def fam_args_subscript_changes(tier, rng):
+    """the subscript of a by-reference element names a variable that the same call passes by reference too, and the callee
+    changes it: the element is the one the subscript named WHEN THE CALL WAS MADE"""
+    out = []
+    for t in ("I", "$", "D"):
+        for order in ("var-first", "elem-first"):
+            for host in ("sub", "fun"):
+                b = B()
+                i = var("I", "I")
+                el = idx("AR", t, [i])
+                x, n = var("X", t), var("N", "I")
+                body = [b.print(lit("$", "in"), n, x), b.let(n, bin_("+", n, lit("I", 1))), b.let(x, v1(t))]
+                args = [i, el] if order == "var-first" else [el, i]
+                params = [("N", "I"), ("X", t)] if order == "var-first" else [("X", t), ("N", "I")]
+                main = [b.dim("AR", t, [{"lo": lit("I", 0), "hi": lit("I", 3), "nolo": False}]), b.let(i, lit("I", 1))]
+                if host == "sub":
+                    main.append(b.call("P", args))
+                    subs = [sub("P", params, body)]
+                else:
+                    fc = fcall("F", "I", args, 0)
+                    st = b.let(var("R", "I"), fc)
+                    fc["sid"] = st["id"]
+                    main.append(st)
+                    subs = [fun("F", "I", params, body + [b.let(var("F", "I"), lit("I", 1))])]
+                main.append(b.print(i, idx("AR", t, [lit("I", 0)]), idx("AR", t, [lit("I", 1)]), idx("AR", t, [lit("I", 2)]), idx("AR", t, [lit("I", 3)])))
+                out.append({"fam": "args-subscript-changes:%s/%s/%s" % (t, order, host), "prog": prog(main, subs)})
+    return out
+
+
+FAMILIES.append(fam_args_subscript_changes)
+
+
 def cases(tier, seed):
     rng = random.Random(seed)
     out = []
